@@ -229,6 +229,10 @@ def run_sql_suite(seed, tier, tag, n_quick=220, n_thorough=2500):
     # multi-chunk inputs for the operators that keep state across chunks (semi / anti joins, merge join, sort
     # aggregation, top-n): the medium family of C11
     cases += c11_medium_cases(seed * 89 + 3, 64 if big else 16, kinds=(3, 3, 0))
+    # the directed family of query shapes the plan rules act on (all of it in the thorough tier, a third otherwise)
+    import planfam
+    pf = planfam.cases()
+    cases += pf if big else pf[seed % 3::3]
     runs, labels = to_run_cases(cases)
     outs = run_sharded("sql", runs, tag=tag, timeout=3300, case_timeout=30)
     collect(cases, runs, labels, outs)
